@@ -54,7 +54,7 @@ CLAIMED = {
               "fixed points m(m) = m in the patch adjoining the threshold on the side of the coupling reference over 48 seeded draws (reference nf 3-6, orders 1-4, exact / expanded, ratios, xif) and "
               "refuses 12 inconsistent inputs with ValueError; 18 crossings re-checked with an independent bookkeeping of the mass path. evolve() itself is executed on ghost couplings (orders 2-4, up/down, "
               "one to three crossings, the three calling conventions): the mass path changes patch at m_h^2 x ratio and m^2 = m2_ref prod ker^2 prod zeta^2. Two defects repaired by fix commits (NumPy >= 2 TypeError; "
-              "ratios of the coupling applied twice to the mass thresholds); one known finding F29 (m^2 multiplied by zeta instead of zeta^2)."),
+              "ratios of the coupling applied twice to the mass thresholds); one known finding F29 (m^2 multiplied by zeta instead of zeta^2). (e) runcards.masses hands compute() the card's own reference masses, coupling reference, order, method, squared matching ratios and xif^2."),
         note=COMMON_NOTE + "Not covered: the L-independent decoupling constants (literature values); convergence of fsolve / quad (observation: solve() ignores fsolve's convergence flag). The bounded part is listed under evidence.coverage.bounded_parts.",
         technique="contract-based deductive verification (symbolic execution + exact normal form) for the kernel; bounded stand-in (deal run-time contracts) for the fixed-point clause",
         design_ref="DESIGN.md section 2, C18",
@@ -94,7 +94,7 @@ CLAIMED = {
         category="exploration",
         text=("BOUNDED stand-in (never counted as proved): the real solver is run in fresh Python processes with PYTHONHASHSEED = 1, 2 and random on a tiny NLO QCD card pair with a threshold crossing (thorough tier: "
               "also LO with QED (1,1)); the archives must have the same member names and bitwise identical members (operators after decompression, recipes, cards, metadata). The inventory file names are shown to "
-              "depend on numeric header fields only (not randomised by the hash seed) and encode() gives equal names across seeds."),
+              "depend on numeric header fields only (not randomised by the hash seed) and encode() gives equal names across seeds. One card is computed by two worker processes under two emulated schedules (workers finishing in opposite orders)."),
         note="Bounded: finite input set stated in bounded/C47_native.py. Not covered: parallel integration, other platforms or library versions.",
         technique="bounded stand-in for contract-based verification: deal run-time contracts around the real solver run in fresh processes (labelled bounded, not proved)",
         design_ref="DESIGN.md section 2, C47",
